@@ -147,6 +147,8 @@ class Opts(object):
         self.equal_shapes_p = 0.0        # chance that all channels share counts (index de-duplication)
         self.huge_p = 0.0                # chance per world of one channel chunk above 1 MiB (block / buffer sizes)
         self.short_last_p = 0.0          # chance per eligible segment of a stated short final chunk ("less data than expected")
+        self.common_names_p = 0.3        # chance per world that names come from a tiny fixed pool: files handled one after another
+                                         # in a process then share object paths, as files from one measurement setup do
         self.long_run_p = 0.0            # chance per world of 100-260 consecutive metadata-less segments (a streamed file)
         self.__dict__.update(kw)
 
@@ -166,17 +168,22 @@ def deepen(o, tier):
 
 def _names(rng, o):
     nasty = rng.random() < o.nasty_names
+    common = rng.random() < o.common_names_p
     names = {'/': []}
     groups = []
+    if common:
+        name_of = lambda kind: rng.choice(['G', 'H'] if kind == 'g' else ['a', 'b', 'c', 'd'])
+    else:
+        name_of = lambda kind: gen_name(rng, nasty)
     for _ in range(rng.randint(1, o.max_groups)):
-        g = gen_name(rng, nasty)
+        g = name_of('g')
         if g not in groups:
             groups.append(g)
     chans = []
     nch = rng.randint(0 if rng.random() < 0.03 else 1, o.max_channels)
     for _ in range(nch):
         g = rng.choice(groups)
-        c = gen_name(rng, nasty)
+        c = name_of('c')
         p = fmt.quote_path(g, c)
         if p not in names:
             names[p] = [g, c]
